@@ -158,3 +158,8 @@ func hangInside(dump, pkgFilter string) bool {
 	}
 	return false
 }
+
+func fileExists(p string) bool {
+	st, err := os.Stat(p)
+	return err == nil && !st.IsDir()
+}
